@@ -6,37 +6,34 @@ import GoluaVerif.Proofs.PatMono
 namespace GoluaVerif.Model.PatMatch
 open GoluaVerif.Model GoluaVerif.Spec
 
-/-- no set of the pattern contains a descending range such as `[z-a]` (for those the builder is wrong) -/
-def NoDescendingRange (pat : LuaPattern.Pat) : Prop := ∀ it ∈ pat.items, PatBuild.AscItem it
-
 /-- the captures of a parsed pattern are well-formed: indices 1..9, opened once, closed only when open, `%n` only to a
-    closed capture (never to a position capture), all closed at the end -/
+    closed or position capture, all closed at the end -/
 def CapturesWF (pat : LuaPattern.Pat) : Prop :=
   WFfrom (fun _ => Shape.unset) pat.items ∧ AllClosed (shapeAfter (fun _ => Shape.unset) pat.items) pat.ncap
 
 theorem patRel_of_build (p : Array UInt8) (pat : LuaPattern.Pat) (hparse : LuaPattern.parse p.toList = .ok pat)
-    (hasc : NoDescendingRange pat) (hwf : CapturesWF pat) (hsize : p.size ≤ Generated.ByteSetTable.maxPatternSize) :
+    (hwf : CapturesWF pat) (hsize : p.size ≤ Generated.ByteSetTable.maxPatternSize) :
     ∃ P, PatBuild.build p = .ok P ∧ PatRel P pat := by
-  obtain ⟨P, h1, h2, h3, h4, h5, h6⟩ := PatBuild.build_refines_parse p pat hparse hasc hsize
+  obtain ⟨P, h1, h2, h3, h4, h5, h6⟩ := PatBuild.build_refines_parse p pat hparse hsize
   exact ⟨P, h1, ⟨⟨Nat.zero_le _, by simpa using h2⟩, hwf.1, hwf.2, h3, h6, h5.symm, h4.symm⟩⟩
 
 /-- MACHINE ⊑ SPEC on pattern strings -/
 theorem machine_refines_spec_str (p : Array UInt8) (s : Subject) (init : Nat) (hinit : init ≤ s.size)
-    (pat : LuaPattern.Pat) (hparse : LuaPattern.parse p.toList = .ok pat) (hasc : NoDescendingRange pat)
+    (pat : LuaPattern.Pat) (hparse : LuaPattern.parse p.toList = .ok pat)
     (hwf : CapturesWF pat) (hsize : p.size ≤ Generated.ByteSetTable.maxPatternSize) :
     ∃ P, PatBuild.build p = .ok P ∧ ∃ N, ∀ fuel, N ≤ fuel →
       (matchFromStart P s fuel init 0).captures = (LuaPattern.findParsed pat s init).map toCaptures ∧
-      (matchFromStart P s fuel init 0).swallowedPanic = none ∧
+      (matchFromStart P s fuel init 0).escapedPanic = none ∧
       (matchFromStart P s fuel init 0).outOfFuel = false := by
-  obtain ⟨P, h1, hp⟩ := patRel_of_build p pat hparse hasc hwf hsize
+  obtain ⟨P, h1, hp⟩ := patRel_of_build p pat hparse hwf hsize
   exact ⟨P, h1, matchFromStart_refines P s pat hp init hinit⟩
 
 /-- no recovered index panic, for every fuel, on pattern strings -/
 theorem match_total_str (p : Array UInt8) (s : Subject) (init : Nat) (hinit : init ≤ s.size)
-    (pat : LuaPattern.Pat) (hparse : LuaPattern.parse p.toList = .ok pat) (hasc : NoDescendingRange pat)
+    (pat : LuaPattern.Pat) (hparse : LuaPattern.parse p.toList = .ok pat)
     (hwf : CapturesWF pat) (hsize : p.size ≤ Generated.ByteSetTable.maxPatternSize) :
-    ∃ P, PatBuild.build p = .ok P ∧ ∀ fuel, (matchFromStart P s fuel init 0).swallowedPanic = none := by
-  obtain ⟨P, h1, hp⟩ := patRel_of_build p pat hparse hasc hwf hsize
+    ∃ P, PatBuild.build p = .ok P ∧ ∀ fuel, (matchFromStart P s fuel init 0).escapedPanic = none := by
+  obtain ⟨P, h1, hp⟩ := patRel_of_build p pat hparse hwf hsize
   exact ⟨P, h1, fun fuel => matchFromStart_no_panic P s pat hp init hinit fuel⟩
 
 end GoluaVerif.Model.PatMatch
